@@ -4,6 +4,8 @@
 -/
 import FloxProofs.Members
 import FloxProofs.ValAlgebra
+import FloxProofs.EndToEndFlox
+import FloxProofs.EndToEndExamples
 
 namespace Flox.C01
 
@@ -34,6 +36,97 @@ theorem dropped_elements_ignored (k : Kernel) (c : Int) (v : Val) (codes : List 
   simp only [members_cons, if_neg hne]
 
 example : grouped .nansum [0, 1, -1, 0] [Val.fin 2, Val.nan, Val.fin 7, Val.fin 3] 2 Val.nan = [Val.fin 5, Val.fin 0] := by
+  decide +kernel
+
+/-- **End to end (numpy_groupies engine).**  For a resolved blueprint `R` with a `Shape` `s` (the built-in reductions
+    that use the simple combine: sum, nansum, prod, nanprod, max, nanmax, min, nanmin, count, all, any, nanfirst,
+    nanlast, mean, nanmean, var, nanvar, std, nanstd on floating data), `groupby_reduce` on in-memory data returns,
+    for every requested label `0..n-1`, the NumPy reduction `s.kernel` of that label's members in original order;
+    the user's fill where the label has fewer than `min_count` valid members; and raises `ValueError` exactly when
+    such a slot exists and no fill was given.
+
+    * `H_absent`: a requested label that does not occur gets the user's fill only through the count mask.
+    * `H_allnan`: for nanmax / nanmin / nanfirst / nanlast / nanmean / nanvar an all-NaN group gets the NumPy fill
+      of the blueprint, which must be NaN unless the count mask is on. -/
+theorem eager_eq_spec (R : Resolved) (s : Shape) (c : Call) (n : Nat) (floatData : Bool)
+    (chunks : List Nat) (codes : List Int) (vals : List Val)
+    (hR : c.R = R) (heng : c.eng = .npg) (hn : c.ngroups = n) (hknown : c.knownLabels = true)
+    (hshape : R.shape? = some s)
+    (hcodes : ∀ c ∈ codes, -1 ≤ c ∧ c < (n : Int)) (hlen : codes.length = vals.length)
+    (H_absent : ∀ g : Nat, g < n → R.minCount ≥ 1 ∨ members (Int.ofNat g) codes vals ≠ [])
+    (H_allnan : s.needsNaNFill = true → R.minCount ≥ 1 ∨ R.npFill = Val.nan) :
+    runKnown c .eager floatData chunks (codes.map fun (i : Int) => (some (i : Rat) : Key)) vals
+      = (match Spec.reduce s.kernel R.minCount R.userFill codes vals n with
+          | some vs => .ok vs
+          | none => .error "ValueError") :=
+  Flox.eager_eq_spec R s c n floatData chunks codes vals hR heng hn hknown hshape hcodes hlen H_absent H_allnan
+
+/-- the same with flox's own engine (`H_floxmean`: for the `mean` / `nanmean` shapes the NumPy fill must be NaN,
+    because flox's own kernels put `fill / 0` into absent slots) -/
+theorem eager_eq_spec_flox (R : Resolved) (s : Shape) (c : Call) (n : Nat) (floatData : Bool)
+    (chunks : List Nat) (codes : List Int) (vals : List Val)
+    (hR : c.R = R) (heng : c.eng = .flox) (hn : c.ngroups = n) (hknown : c.knownLabels = true)
+    (hshape : R.shape? = some s) (H_floxmean : s.isMean = true → R.npFill = Val.nan)
+    (hcodes : ∀ c ∈ codes, -1 ≤ c ∧ c < (n : Int)) (hlen : codes.length = vals.length)
+    (H_absent : ∀ g : Nat, g < n → R.minCount ≥ 1 ∨ members (Int.ofNat g) codes vals ≠ [])
+    (H_allnan : s.needsNaNFill = true → R.minCount ≥ 1 ∨ R.npFill = Val.nan) :
+    runKnown c .eager floatData chunks (codes.map fun (i : Int) => (some (i : Rat) : Key)) vals
+      = (match Spec.reduce s.kernel R.minCount R.userFill codes vals n with
+          | some vs => .ok vs
+          | none => .error "ValueError") :=
+  Flox.eager_eq_spec_flox R s c n floatData chunks codes vals hR heng hn hknown hshape H_floxmean hcodes hlen
+    H_absent H_allnan
+
+/-- flox's own engine (stable sort + `reduceat`) computes, in every slot, the block value of the group's members in
+    original order -/
+theorem floxEngine_eq_blockVal (k : Kernel)
+    (hk : k ∈ [.sum, .prod, .max, .min, .nansum, .nanprod, .nanmax, .nanmin, .sumsq, .nansumsq, .nanlen])
+    (codes : List Int) (vals : List Val) (size : Nat) (fill : Val) (hlen : codes.length = vals.length) :
+    EngineFlox.run? k codes vals size fill
+      = some ((List.range size).map fun (g : Nat) => blockVal k fill (members (Int.ofNat g) codes vals)) :=
+  Flox.floxEngine_eq_blockVal k hk codes vals size fill hlen
+
+/-- engine independence at the kernel level -/
+theorem floxGrouped_eq_npgGrouped (k : Kernel)
+    (hk : k ∈ [.sum, .prod, .max, .min, .nansum, .nanprod, .nanmax, .nanmin, .sumsq, .nansumsq, .nanlen])
+    (codes : List Int) (vals : List Val) (size : Nat) (fill : Val) (hlen : codes.length = vals.length)
+    (hfill : k = .nanlen ∨ k = .nansumsq → fill = Val.zero) :
+    floxGrouped k codes vals size fill = npgGrouped k codes vals size fill :=
+  Flox.floxGrouped_eq_npgGrouped k hk codes vals size fill hlen hfill
+
+/-! ### non-vacuity -/
+
+open E2E in
+/-- all hypotheses of `eager_eq_spec` hold for `nanmean(min_count=1, fill_value=-1)` on data with an absent label, an
+    all-NaN label and a dropped element; the common value is `[3/2, -1, 4, -1]` -/
+example :
+    runKnown (mkCall Rnanmean .npg 4 2) .eager true [8] (codes8.map fun (i : Int) => (some (i : Rat) : Key)) vals8
+      = (match Spec.reduce (Shape.mean true).kernel Rnanmean.minCount Rnanmean.userFill codes8 vals8 4 with
+          | some vs => .ok vs
+          | none => .error "ValueError")
+    ∧ Spec.reduce .nanmean Rnanmean.minCount Rnanmean.userFill codes8 vals8 4
+      = some [Val.fin (3/2), Val.fin (-1), Val.fin 4, Val.fin (-1)] :=
+  ⟨eager_eq_spec Rnanmean (.mean true) (mkCall Rnanmean .npg 4 2) 4 true [8] codes8 vals8 rfl rfl rfl rfl
+      (by decide +kernel) (by decide +kernel) rfl (fun _ _ => Or.inl (by decide)) (by decide +kernel),
+    by decide +kernel⟩
+
+open E2E in
+/-- flox engine, `nanmax` -/
+example :
+    runKnown (mkCall Rnanmax .flox 4 2) .eager true [8] (codes8.map fun (i : Int) => (some (i : Rat) : Key)) vals8
+      = .ok [Val.fin 2, Val.nan, Val.fin 5, Val.nan] := by decide +kernel
+
+open E2E in
+/-- the hypotheses are necessary: see `E2E.H_absent_counterexample`, `E2E.H_allnan_counterexample`,
+    `E2E.lenfill_counterexample` -/
+example : ¬ (∀ g : Nat, g < 2 → Rsum.minCount ≥ 1 ∨ members (Int.ofNat g) [0] [Val.fin 1] ≠ [])
+    ∧ runKnown (mkCall Rsum .npg 2 2) .eager true [1] ([0].map fun (i : Int) => (some (i : Rat) : Key)) [Val.fin 1]
+        ≠ (match Spec.reduce .sum Rsum.minCount Rsum.userFill [0] [Val.fin 1] 2 with
+            | some vs => .ok vs
+            | none => .error "ValueError") := by
+  refine ⟨fun h => ?_, by decide +kernel⟩
+  have := h 1 (by decide)
+  revert this
   decide +kernel
 
 end Flox.C01
